@@ -565,6 +565,9 @@ impl From<u8> for Natural {
 impl Add for Natural {
     type Output = Self;
     fn add(mut self, mut rhs: Self) -> Self {
+        if self.is_nan() || rhs.is_nan() {
+            return Self::NAN;
+        }
         if rhs.len == 0 {
             return self;
         }
